@@ -195,7 +195,10 @@ type c11Heap struct {
 func (h *c11Heap) pick(r *fw.RNG, ok func(*c11Val) bool) (string, *c11Val) {
 	var cands []string
 	for _, n := range h.names {
-		if ok(h.vals[n]) {
+		// A value whose contents are unspecified (see c11TaintLinked) is never an
+		// operand: whatever is computed from it would be unspecified too, while
+		// the result's own fresh storage would make it look judged.
+		if ok(h.vals[n]) && !h.vals[n].tainted(map[*c11Val]bool{}) {
 			cands = append(cands, n)
 		}
 	}
